@@ -166,6 +166,7 @@ fn answer(line: &str, cap: usize) -> String {
             let (r, peak) = peak_during(|| catch_unwind(AssertUnwindSafe(|| emit::codec_line(line))).unwrap_or_else(|_| "panic".to_string()));
             format!("{} peak={}", r, peak)
         }
+        "concprove" => catch_unwind(AssertUnwindSafe(|| emit::concprove_line(line))).unwrap_or_else(|_| "panic".to_string()),
         "prove" => catch_unwind(AssertUnwindSafe(|| emit::prove_line(line))).unwrap_or_else(|_| "panic".to_string()),
         "verify" | "vroundtrip" | "proofdec" => {
             let toks: Vec<&str> = line.split(' ').filter(|s| !s.is_empty()).collect();
